@@ -284,3 +284,23 @@ EXCLUSIONS = ["from_DCM / 3d-vs-2d with the closed-form methods: |q_w| >= 5e-7 (
 NOT_COVERED = ["N-sample constructors of the eig/iterative estimators (Davenport, QUEST, FLAE, OLEQ) beyond option forwarding",
                "N > 2 rows (A-ROW: vectorised NumPy operations act row-wise identically for every N)",
                "itzhack through QuaternionArray(DCM=...) (np.linalg.eig)"]
+
+
+@contract('C07', 'metrics.batch-scale-invariant', variants=[dict(f=f) for f in ('qdist', 'qeip', 'qcip', 'qad')],
+          feas_timeout_ms=1000, no_safety=True, budget_s=300,
+          functions=['metrics.qdist', 'metrics.qeip', 'metrics.qcip', 'metrics.qad'])
+def c_metrics_scale(c):
+    """the N-row branch normalises each argument by its OWN norms: scaling either input by a positive factor changes nothing
+    (this is what makes the batch path agree with the single-item path on non-normalised rows)"""
+    m = c.ahrs.utils.metrics
+    f = getattr(m, c.p['f'])
+    k, j = c.real('k'), c.real('j')
+    c.assume(And(gt(k, 0), gt(j, 0)))
+    p, q = c.unit_quat('p'), c.unit_quat('q')
+    P1, Q1 = np.array([p]), np.array([q])
+    d1 = f(P1, Q1)[0]
+    d2 = f(k * P1, j * Q1)[0]
+    if c.p['f'] in ('qcip', 'qad'):
+        c.goal('scale-invariant', eq(c.cos(d1), c.cos(d2)))
+    else:
+        c.goal('scale-invariant', eq(d1, d2))
